@@ -163,7 +163,10 @@ Definition verdict (e : env) (t : track) (closed : bool) : option N :=
             (if en_setschema e && (is_time o || is_query o) then b + 7
              else if orphan then b + 3
              else b + 1)
-          else if tk_held_unproc t then b + 9
+          else if tk_held_unproc t then
+            (* the queue tick only moves with non-check transitions, and those run
+               ProcessWhenQueue also when canceled *)
+            (match o with OWhenQueue _ => b + 1 | _ => b + 9 end)
           else if tk_ctx_proc t then
             (if orphan then b + 3 else b + 1)
           else b + 6)%N.
@@ -196,7 +199,11 @@ Definition subscribe_codes (e : env) (v : view) (o : sop) (ob : opobs) : list N 
        returns the closed channel unless an identical pending subscription is reused) *)
     let must := (checks_at_subscribe r && cond r v) || en_disposed e in
     (if oo_closed0 ob then (if must || ctx0 then [] else [(b + 4)%N])
-     else if must then [(if en_setschema e && is_time r then b + 7 else b + 5)%N] else [])
+     (* inside the apply window an identical pending subscription may be reused
+        (the lookup precedes the check); it is served by this transition's
+        processSubscriptions and judged at the next poll *)
+     else if must && negb (v_applied v)
+     then [(if en_setschema e && is_time r then b + 7 else b + 5)%N] else [])
     ++ (if is_sctx o && negb (N.eqb (oo_tick ob) (tick_of (v_clock v) (hd 0 (op_states o))))
         then [(if v_window v then 675 else if en_setschema e then 677 else 673)%N] else []).
 
@@ -291,6 +298,7 @@ Definition walk_step (rets : list opobs) (polls : list (list bool)) (w : wstate)
   | EStateCtx _ _ =>
     {| w_env := e; w_tracks := w_tracks w; w_poll := w_poll w; w_codes := w_codes w;
        w_applied := true |}
+  | EQueueTick _ => w
   end.
 
 Fixpoint dedup_n (l : list N) : list N :=
@@ -336,10 +344,10 @@ Fixpoint coherent (a : nat -> bool) (es : list sevent) : Prop :=
     end /\ coherent (act_upd a e) r
   end.
 
-(* no context ends, no Dispose, no WhenQuery with a context *)
+(* no context ends, no Dispose *)
 Definition plain_ev (e : sevent) : bool :=
   match e with
-  | EOp _ _ (OCancel _) | EOp _ _ ODispose | EOp _ _ (OWhenQuery _ (Some _)) => false
+  | EOp _ _ (OCancel _) | EOp _ _ ODispose => false
   | _ => true
   end.
 
@@ -390,11 +398,13 @@ Definition told_cond (neg : bool) (sts : list nat) (a : nat -> bool) : bool :=
 Definition when_op (neg : bool) (sts : list nat) (ctx : option nat) : sop :=
   if neg then OWhenNot sts ctx else OWhen sts ctx.
 
-(* some later processSubscriptions ran with a queue tick satisfying c *)
+(* some later processSubscriptions (or the ProcessWhenQueue of a canceled
+   transition) ran with a queue tick satisfying c *)
 Fixpoint processed_with (c : N -> bool) (es : list sevent) : bool :=
   match es with
   | [] => false
   | EProcess _ _ _ _ qt :: r => c qt || processed_with c r
+  | EQueueTick qt :: r => c qt || processed_with c r
   | _ :: r => processed_with c r
   end.
 
